@@ -414,7 +414,7 @@ func oracleC10(m *gensim.MethodMeta, fr *rtFuncReport, twin *rtFuncReport, st *S
 
 var reDiag = regexp.MustCompile(`(?m)^(?:\./)?conv/([\w.]+\.go):(\d+):(\d+): (.*)$`)
 
-var capableNames = []string{"ErrHookShared", "cV", "cA", "cD", "CD", "cLE", "cLI", "G", "cNX", "cE1", "cC", "cR", "cP", "cW", "GetY", "GetB", "GetV", "Get", "SubN"}
+var capableNames = []string{"ErrHookShared", "cT64", "cV", "cA", "cD", "CD", "cLE", "cLI", "G", "cNX", "cE1", "cC", "cR", "cP", "cW", "GetY", "GetB", "GetV", "Get", "SubN"}
 
 // attributeDiagnostics maps compiler diagnostics in the generated file onto
 // C07 / C10 narrowly; everything else is a note.
